@@ -165,6 +165,26 @@ def gen_queries(rnd, corpus):
         qs.append(("spancondition %r %r" % (a_, b_), sp.SpanCondition(T(a_), T(b_)), lambda d, a_=a_, b_=b_: a_ in d["t"] and b_ in d["t"]))
         qs.append(("andspan %r %r" % (w_, a_), query.And([sp.SpanFirst(T(w_), limit=k), T(a_)]),
                    lambda d, w_=w_, k=k, a_=a_: w_ in d["t"][:k + 1] and a_ in d["t"]))
+    # sequences / ordered / multi-way span-near / span-before / constant score
+    def seq_pred(ws, adjacent):
+        def pred(d):
+            toks = d["t"]
+
+            def rec(wi, last):
+                if wi == len(ws):
+                    return True
+                return any(rec(wi + 1, p_) for p_, tk in enumerate(toks) if tk == ws[wi] and (last is None or (p_ == last + 1 if adjacent else p_ > last)))
+            return rec(0, None)
+        return pred
+    for _ in range(2):
+        a_, b_ = rnd.choice(vocab), rnd.choice(vocab)
+        qs.append(("sequence %r %r" % (a_, b_), query.Sequence([T(a_), T(b_)]), seq_pred([a_, b_], True)))
+        qs.append(("spannear2 %r %r" % (a_, b_), sp.SpanNear2([T(a_), T(b_)], slop=1, ordered=True), seq_pred([a_, b_], True)))
+        if a_ != b_:
+            qs.append(("spanbefore %r %r" % (a_, b_), sp.SpanBefore(T(a_), T(b_)),
+                       lambda d, a_=a_, b_=b_: a_ in d["t"] and b_ in d["t"] and d["t"].index(a_) < d["t"].index(b_)))
+        qs.append(("constantscore %r %r" % (a_, b_), query.ConstantScoreQuery(query.Or([T(a_), T(b_)]), 2.0),
+                   lambda d, a_=a_, b_=b_: a_ in d["t"] or b_ in d["t"]))
     # a query over a column (the first token of the document, kept in a sortable field): by value and by predicate
     cw = rnd.choice(vocab)
     qs.append(("column == %r" % cw, query.ColumnQuery("c", cw), lambda d, cw=cw: (d["t"] or ["none"])[0] == cw))
